@@ -139,6 +139,10 @@ func crossSpec(b behaviour, position string, settings int) *ref.ASpec {
 	}
 	if position == "action" {
 		a.Nodes["start"] = &ref.ANode{Action: b.Prog, Branching: &ref.ABranching{Type: "bindings", Branches: []*ref.ABranch{{Target: "n2"}}}}
+	} else if position == "guard-after-action" {
+		// the node's own action succeeds; the failure happens while its branches are considered
+		a.Nodes["start"] = &ref.ANode{Action: &ref.Prog{Ops: []ref.Op{{Op: "set", K: "seen", V: "yes"}}, Ret: "same"},
+			Branching: &ref.ABranching{Type: "bindings", Branches: []*ref.ABranch{{Guard: b.Prog, Target: "n2"}, {Target: "n3"}}}}
 	} else {
 		a.Nodes["start"] = &ref.ANode{Branching: &ref.ABranching{Type: "bindings", Branches: []*ref.ABranch{{Guard: b.Prog, Target: "n2"}, {Target: "n3"}}}}
 	}
@@ -341,6 +345,7 @@ func runCross(cfg fw.Config, rec *fw.Rec, worker int, cc crossCase, b behaviour)
 	rec.Bucket("state_" + cc.State)
 	rec.Bucket("control_" + cc.Control)
 	rec.Bucket("behaviour_" + cc.Behaviour)
+	rec.Bucket("position_" + cc.Position)
 	rec.Nontrivial(fw.Canon(cc))
 }
 
@@ -646,7 +651,7 @@ func oddNative(rec *fw.Rec, worker int) {
 		}},
 	}
 	for _, o := range odds {
-		for _, pos := range []string{"action", "guard"} {
+		for _, pos := range []string{"action", "guard", "guard-after-action"} {
 			for settings := 0; settings < 5; settings++ {
 				for _, hs := range hostileStates {
 					for _, api := range []string{"step", "walk-nil-control", "walk"} {
@@ -738,8 +743,8 @@ func oddNative(rec *fw.Rec, worker int) {
 }
 
 func Run(cfg fw.Config, rec *fw.Rec) {
-	rec.Rule = "cross product {behaviour (34: throw Error/string/object, infinite loop, recursion, loop inside try, return null/undefined/number/string/array/function/NaN/bool/Date/cyclic/function-member, _.out of unserialisable/NaN/cyclic, bindings replaced, deleting permanents ...)} x {action, guard} x {5 error settings} x {6 states: empty, nil bindings, permanent, unknown node, unknown node + nil bindings, at error node} x {6 controls: nil, limit -1/0/1/100, breakpoint} x {4 pendings incl. a nil element} x {Step, Walk} x renderings; damaged JSON/YAML documents (45 targeted + random) loaded by encoding/json, jsccast/yaml, yaml.v2 and sio's file-URL loader, compiled, then walked; odd native results ((nil,nil), nil bindings, (nil,err), (exe,err), same map, Execution literals without Events); 53 hostile requests to a sio crew (duplicate / malformed timer requests, malformed crew operations, deleting the service machines, odd routing targets, machines without spec or state), alone and in sequence, each followed by a probe that the crew still delivers; one child process per batch, every case logged before it runs; oracle: no panic / fatal / hang, and every failure surfaced as the reference step says; non-trivial = case run to a verdict; distinct by case description"
-	rec.Required = []string{"failures_surfaced_step", "walks_checked", "state_nil-bindings", "state_unknown-node-nil-bindings", "state_permanent", "failures_surfaced_nil_bindings", "control_nil", "control_limit-1", "doc_compiled", "doc_compile_error", "doc_load_error", "native_odd_checked", "failures_surfaced_native", "host_requests_survived", "behaviour_loop", "behaviour_recursion", "behaviour_out-cyclic"}
+	rec.Rule = "cross product {behaviour (34: throw Error/string/object, infinite loop, recursion, loop inside try, return null/undefined/number/string/array/function/NaN/bool/Date/cyclic/function-member, _.out of unserialisable/NaN/cyclic, bindings replaced, deleting permanents ...)} x {action, guard, guard at a node whose action succeeded} x {5 error settings} x {6 states: empty, nil bindings, permanent, unknown node, unknown node + nil bindings, at error node} x {6 controls: nil, limit -1/0/1/100, breakpoint} x {4 pendings incl. a nil element} x {Step, Walk} x renderings; damaged JSON/YAML documents (45 targeted + random) loaded by encoding/json, jsccast/yaml, yaml.v2 and sio's file-URL loader, compiled, then walked; odd native results ((nil,nil), nil bindings, (nil,err), (exe,err), same map, Execution literals without Events); 53 hostile requests to a sio crew (duplicate / malformed timer requests, malformed crew operations, deleting the service machines, odd routing targets, machines without spec or state), alone and in sequence, each followed by a probe that the crew still delivers; one child process per batch, every case logged before it runs; oracle: no panic / fatal / hang, and every failure surfaced as the reference step says; non-trivial = case run to a verdict; distinct by case description"
+	rec.Required = []string{"failures_surfaced_step", "walks_checked", "state_nil-bindings", "state_unknown-node-nil-bindings", "state_permanent", "failures_surfaced_nil_bindings", "control_nil", "control_limit-1", "doc_compiled", "doc_compile_error", "doc_load_error", "native_odd_checked", "failures_surfaced_native", "host_requests_survived", "behaviour_loop", "behaviour_recursion", "behaviour_out-cyclic", "position_guard-after-action"}
 	rec.Assume = []string{"native actions do not panic themselves (a Go panic in host code is the host's)", "with absent bindings an ECMAScript program's behaviour is its own; only totality is judged there", "hard watchdog 30-60 s per call; contexts carry deadlines of 40 ms (non-terminating scripts) or 2 s"}
 	bs := behaviours()
 	var cases []crossCase
@@ -748,7 +753,7 @@ func Run(cfg fw.Config, rec *fw.Rec) {
 		if !b.ECMA {
 			renders = append(renders, "native-nilerr", "native-partial")
 		}
-		for _, pos := range []string{"action", "guard"} {
+		for _, pos := range []string{"action", "guard", "guard-after-action"} {
 			for settings := 0; settings < 5; settings++ {
 				for _, hs := range hostileStates {
 					for _, ck := range ctlKinds {
